@@ -3724,8 +3724,9 @@ class Score(object):
         self.parts[index] = part
 
     def __iter__(self) -> Iterator[Part]:
-        self.iter_idx = 0
-        return self
+        # a fresh iterator per loop, so that nested and interleaved loops
+        # over the same score do not share a cursor
+        return iter(self.parts)
 
     def __next__(self) -> Part:
         if self.iter_idx == len(self.parts):
